@@ -19,12 +19,14 @@ for k in list(vs["readers"]):
         if sorted(vi[k]["items"]) != vs["readers"][k]:
             print("changed", k)
         vs["readers"][k] = sorted(vi[k]["items"])
+        vs.setdefault("wide", {})[k] = vi[k]["wide"]
     else:
         print("READER GONE", k)
 for k in vi:
     if k not in vs["readers"]:
         print("reader added", k, len(vi[k]["items"]))
         vs["readers"][k] = sorted(vi[k]["items"])
+        vs.setdefault("wide", {})[k] = vi[k]["wide"]
 json.dump(vs, open(p, "w"), indent=1)
 inv = triggers.inventory(F)
 p = os.path.join(V, "spec", "triggers.json")
